@@ -992,6 +992,9 @@ def solve_degenerate(tier="quick", seed=0, only=None):
         "all_fixed_one_eq": (lambda: QP([[1, 0], [0, 1]], [1, -1], [[1, 1]], [0.25], [0.25], [0.5, -0.25], [0.5, -0.25]), np.array([0.5, -0.25])),
         "steep_lp_all_active": (lambda: QP(np.zeros((3, 3)), [1e6, -1e6, 1e6], np.zeros((0, 3)), [], [], [0, 0, 0], [1, 1, 1]), np.array([0.5, 0.5, 0.5])),
         "one_var_ranged_row_active": (lambda: QP([[0.0]], [1.0], [[1.0]], [0.25], [0.75], [0.0], [1.0]), np.array([0.5])),
+        # H + lamb*I cancels exactly for the default lamb_init = 1 (stored zeros are dropped from sparse sums)
+        "concave_qp_diagonal_cancels": (lambda: QP([[-1.0, 0.0], [0.0, -1.0]], [0.0, 0.0], np.zeros((0, 2)), [], [], [-1, -1], [1, 1]), np.array([0.5, -0.25])),
+        "concave_qp_diagonal_cancels_eq_row": (lambda: QP([[-1.0, 0.0, 0.0], [0.0, -1.0, 0.0], [0.0, 0.0, 1.0]], [0.0, 0.0, 0.0], [[0, 0, 1.0]], [0.5], [0.5], [-1, -1, -1], [1, 1, 1]), np.array([0.5, -0.25, 0.0])),
     }
     failures, cases = [], 0
     names = list(D)
